@@ -229,6 +229,9 @@ def run(chk):
     chk.floor("update functions", nu, 5)
     seed_rule(chk, {k: v for k, v in mods.items() if k.startswith(DIR + "/")})
     tail_order_rule(chk, mods)
+    ncons, ncase = mhrules.update_conservation(chk, "R10.10", {k: v for k, v in mods.items() if k.startswith(DIR + "/")}, r"^_mh_sha1_murmur3_x64_128_update_\w+$", r"^_?mh_sha1_murmur3_x64_128_block_\w+$")
+    chk.floor("update functions replayed for byte conservation", ncons, 5)
+    chk.floor("(carried, len) cases followed on the IR skeleton", ncase, 150)
     nbb = mhrules.block_bounds(chk, "R10.9", lib, {k: v for k, v in mods.items() if k.startswith(DIR + "/")}, "_mh_sha1_murmur3_x64_128_block")
     chk.floor("stitched block functions followed on the length skeleton", nbb, 4)
     nls = mhrules.loop_state_rule(chk, "R10.8", lib, r"^_mh_sha1_murmur3_x64_128_block_\w+$")
